@@ -60,7 +60,7 @@ CONSTANTS
  PipeCap = 99
  JoinChecked = TRUE
  ProdFaultAt <- AnyK
- OnProdFault = "%(react)s"
+ Reactions <- %(react)s
 INVARIANT AtMostOnce
 INVARIANT ReturnedImpliesAll
 INVARIANT ReturnedImpliesAllPut
@@ -85,7 +85,7 @@ CONSTANTS
  PipeCap = 99
  JoinChecked = TRUE
  ProdFaultAt = %(ks)s
- OnProdFault = "propagate"
+ Reactions <- AsCoded
 INVARIANT AtMostOnce
 INVARIANT ReturnedImpliesAll
 INVARIANT ReturnedImpliesAllPut
@@ -940,7 +940,14 @@ def real_stage_run(ctx, stage, parallel, k=0):
                 fn()
             except BaseException as e:  # noqa
                 status = "raised: %r" % (e,)
-        return status, [c.pid for c in mp.active_children() if c.is_alive()], list(stage.inj.fired)
+        alive = [c.pid for c in mp.active_children() if c.is_alive()]
+        # the unchanged code leaves its (daemonic) workers polling the abandoned queue when the producer raises: end them here,
+        # this child leaves through os._exit and would orphan them
+        for c in mp.active_children():
+            c.kill()
+        for c in mp.active_children():
+            c.join(5)
+        return status, alive, list(stage.inj.fired)
     try:
         kind, val = guard.run_guarded(body, 120)
     finally:
@@ -1107,7 +1114,8 @@ def replay_history(ctx, rec, accepts, full_index):
     ctx.distinct(("history", kind, ai, tuple(tuple(x[0:1]) + tuple(map(tuple, x[1:])) for x in done)))
 
 
-def history_check(ctx):
+def history_inputs(ctx):
+    """The inputs of the object-history model (enumerated here, handed to TLC): filters as accept sets, depths, apexes, history length."""
     q = ctx.quick
     maxd = 2 if q else 3
     full = _all_positions(maxd)
@@ -1115,19 +1123,28 @@ def history_check(ctx):
     acc5 = frozenset(l1[:2]) | {(2, 0, 0), (2, 1, 1), (2, 2, 0), (2, 3, 0), (2, 3, 1)}
     if not q:
         acc5 = acc5 | {(3, 0, 0), (3, 1, 1), (3, 4, 0), (3, 5, 1), (3, 6, 2), (3, 7, 3), (3, 2, 3)}
-    accepts = [full, acc5]
+    accepts = [full, acc5]          # index 1 = no user filter (Pyramid.new_toast)
     while len(accepts) < (3 if q else 5):
         a = _random_filter(ctx.rng, maxd)
         if a and a not in accepts:
             accepts.append(a)
     depths = [1, 2] if q else [1, 2, 3]
     apexes = [(1, 1, 0), (1, 0, 1), (2, 0, 0)] if q else [(1, 1, 0), (1, 0, 1), (2, 0, 0), (2, 3, 1), (3, 4, 0)]
-    hlen = 3 if q else 4
+    return accepts, depths, apexes, (3 if q else 4)
+
+
+def history_tlc(ctx, inputs):
+    accepts, depths, apexes, hlen = inputs
     defs = [("MCKinds", tla.lit({"generic", "toast"})), ("MCAccepts", tla.lit([set(a) for a in accepts])), ("MCDepths", tla.lit(set(depths))),
             ("MCApexes", tla.lit(set(apexes))),
             'Emit == Complete => PrintT(<<"H", ToJson([kind |-> kind, ai |-> ai, d0 |-> d0, hist |-> hist])>>)']
     mod = tla.module("MCLeafHistory", ["LeafHistory", "Json"], defs)
-    r = ctx.tlc("MCLeafHistory", extra={"MCLeafHistory.tla": mod}, cfg_text=HCFG % hlen, workers=4, timeout=1800)
+    return ctx.tlc("MCLeafHistory", extra={"MCLeafHistory.tla": mod}, cfg_text=HCFG % hlen, workers=4, timeout=1800)
+
+
+def history_replay(ctx, r, inputs):
+    accepts = inputs[0]
+    q = ctx.quick
     recs = r.json_lines("H")
     if not recs:
         ctx.machinery("TLC emitted no object histories")
@@ -1142,16 +1159,23 @@ def history_check(ctx):
     rest = [x for x in recs if not interesting(x)]
     ctx.rng.shuffle(first)
     ctx.rng.shuffle(rest)
-    chosen = (first[:150] + rest[:40]) if q else (first + rest)
+    chosen = (first[:120] + rest[:30]) if q else (first + rest)
     for x in chosen:
         replay_history(ctx, x, accepts, 1)
     ctx.note("object_histories", {"emitted_by_tlc": len(recs), "replayed": len(chosen), "of_which_observe_change_visit": len([x for x in chosen if interesting(x)])})
     x = chosen[0]
-    ctx.sample({"object_history": [[h["op"], h["arg"], sorted(map(tuple, h["leaves"]))[:8]] for h in x["hist"]], "kind": x["kind"], "filter": x["ai"]})
+    ctx.sample({"object_history": [[h["op"], h["arg"], sorted(map(tuple, h["leaves"]))[:8]] for h in x["hist"]], "kind": x["kind"], "filter": x["ai"]}, force=True)
 
 
 def run(ctx):
     repo.setup(ctx)
+    _t = [time.time()]
+
+    def lap(what):
+        if os.environ.get("C03_TIMING"):
+            import sys
+            sys.stderr.write("C03 timing: %-28s %6.1f s\n" % (what, time.time() - _t[0]))
+        _t[0] = time.time()
     ctx.rule = ("TLC explores spec/WorkQueue.tla exhaustively (all interleavings of producer, feeder, worker sub-steps and timeouts) "
                 "for small item/worker/capacity constants; TLC-simulated behaviours are replayed step by step into the real stages on a fake "
                 "multiprocessing with state comparison; the real stages are additionally explored under seeded random and adversarial schedule "
@@ -1162,29 +1186,32 @@ def run(ctx):
     confs = [dict(n=4, w=2, cap=2), dict(n=4, w=2, cap=1)] if q else \
             [dict(n=4, w=2, cap=2), dict(n=4, w=2, cap=1), dict(n=3, w=3, cap=2), dict(n=5, w=2, cap=4), dict(n=4, w=3, cap=6), dict(n=3, w=3, cap=1)]
     import concurrent.futures
-    # the first two configurations are checked with the producer's iterable failing at every position k (k = 0: healthy - WorkQueue's own
-    # state graph is the pfail = 0 part), once for each admissible reaction; the others as WorkQueue stands
-    reacts = {0: "propagate", 1: "wind-down-raise"}
-    jobs = [(lambda c=c, i=i: ctx.tlc("MCWorkQueueProd", cfg_text=PCFG % dict(c, react=reacts[i]), timeout=1800, workers=4)) if i in reacts else
-            (lambda c=c: ctx.tlc("MCWorkQueue", cfg_text=CFG % dict(c, faults="NoFaults"), timeout=1800, workers=4)) for i, c in enumerate(confs)]
+    jobs = [lambda c=c: ctx.tlc("MCWorkQueue", cfg_text=CFG % dict(c, faults="NoFaults"), timeout=1800, workers=4) for c in confs]
+    # the same protocol with the producer's iterable failing at every position k (k = 0: healthy), for both admissible reactions
+    pconfs = [dict(n=3, w=2, cap=2)] if q else [dict(n=4, w=2, cap=2), dict(n=4, w=2, cap=1), dict(n=3, w=3, cap=2)]
+    jobs += [lambda c=c: ctx.tlc("MCWorkQueueProd", cfg_text=PCFG % dict(c, react="Admissible"), timeout=1800, workers=4) for c in pconfs]
     # the OS pipe between feeder and workers: items larger than the pipe (PipeCap 0: images), a pipe of one item
     for c, pc in ([(confs[0], 0), (confs[1], 1)] if q else [(c, pc) for c in confs[:4] for pc in (0, 1)]):
         jobs.append(lambda c=c, pc=pc: ctx.tlc("MCWorkQueue", cfg_text=(CFG % dict(c, faults="NoFaults")).replace("PipeCap = 99", "PipeCap = %d" % pc), timeout=1800, workers=4))
     if not q:
-        jobs.append(lambda: ctx.tlc("MCWorkQueueProd", cfg_text=(PCFG % dict(confs[0], react="propagate")).replace("PipeCap = 99", "PipeCap = 0"), timeout=1800, workers=4))
-        jobs.append(lambda: ctx.tlc("MCWorkQueueProd", cfg_text=PCFG % dict(confs[2], react="wind-down-raise"), timeout=1800, workers=4))
+        jobs.append(lambda: ctx.tlc("MCWorkQueueProd", cfg_text=(PCFG % dict(confs[0], react="Admissible")).replace("PipeCap = 99", "PipeCap = 0"), timeout=1800, workers=4))
     # negative control: winding the workers down and then RETURNING after the producer's iterable failed must be refuted
-    neg = lambda: ctx.tlc("MCWorkQueueProd", cfg_text=PCFG % dict(n=3, w=2, cap=2, react="wind-down-return"), timeout=600, workers=2,      # noqa: E731
+    neg = lambda: ctx.tlc("MCWorkQueueProd", cfg_text=PCFG % dict(n=3, w=2, cap=2, react="Swallow"), timeout=600, workers=2,      # noqa: E731
                           expect_violation=True, count=False)
+    hin = history_inputs(ctx)
     with concurrent.futures.ThreadPoolExecutor(max_workers=4) as ex:
+        fs = [ex.submit(j) for j in jobs]
         fneg = ex.submit(neg)
-        for f in [ex.submit(j) for j in jobs]:
+        fhist = ex.submit(history_tlc, ctx, hin)          # spec/LeafHistory.tla: the object histories replayed in (6)
+        for f in fs:
             f.result()
         rneg = fneg.result()
+        rhist = fhist.result()
     if rneg.violated not in ("ReturnedImpliesAll", "ReturnedImpliesAllPut"):
         ctx.machinery("negative control: TLC did not refute ReturnedImpliesAll for a stage that returns normally after its producer failed (%s)" % rneg.violated)
     else:
         ctx.note("negative_control_wind_down_return", "refuted by TLC (%s)" % rneg.violated)
+    lap("tlc exhaustive")
     # (2) spec -> code replay
     l1 = [(1, 0, 0), (1, 1, 0), (1, 0, 1), (1, 1, 1)]
     acc5 = frozenset(l1[:2]) | {(2, 0, 0), (2, 1, 1), (2, 2, 0), (2, 3, 0), (2, 3, 1)}
@@ -1196,6 +1223,7 @@ def run(ctx):
     if not q:
         replay_stage(ctx, stages[0], 3, 200, 200)
         replay_stage(ctx, stages[1], 3, 200, 200, prod=3)
+    lap("replay 4 stages")
     # (3) direct exploration of all four stages
     pols = list(simrun.POLICIES)
     allstages = stages + [LeafStage("toast depth 2", 2), LeafStage("planetary depth 1", 1),
@@ -1208,6 +1236,7 @@ def run(ctx):
     for st in allstages:
         explore(ctx, st, 2, pols, 3 if q else 30)
         explore(ctx, st, 3, ["random", "flag-race", "starve-feeder"], 2 if q else 20)
+    lap("explore leaf/transform")
     mt = MultiTanStage(ctx, 3)
     mw = MultiWcsStage(ctx, 3)
     # images larger than the OS pipe (64 KiB): the feeder blocks in the middle of every write until a worker receives
@@ -1216,6 +1245,7 @@ def run(ctx):
     for st in (mt, mw, mtbig, mtmef):
         explore(ctx, st, 2, ["random", "flag-race", "starve-feeder", "eager-timeout"], 2 if q else 15)
     replay_stage(ctx, mtbig, 2, 15 if q else 150, 150, pipecap=0)
+    lap("explore multi + replay mtbig")
     # (3p) a fault of the producer's iterable part-way through the item stream, workers healthy: the position generator / the user's tile
     # filter (visit_leaves), the position generator (transform), the collection's images() (multi_tan, multi_wcs)
     leaf_filter = LeafStage("toast filtered depth 2, 5 leaves", 2, accept=acc5, via="filter")
@@ -1223,11 +1253,12 @@ def run(ctx):
     if not q:
         pstages += [stages[0], LeafStage("toast sub-pyramid", 2, apex=(1, 0, 1)), TransformStage(2), mtbig, mtmef]
     for st in pstages:
-        explore_pfault(ctx, st, 2, ["random", "eager-timeout", "workers-last"], 2 if q else 12)
-        explore_pfault(ctx, st, 3, ["random", "main-first"], 1 if q else 8)
+        explore_pfault(ctx, st, 2, ["random", "eager-timeout", "workers-last"], 1 if q else 12)
+        explore_pfault(ctx, st, 3, ["main-first"] if q else ["random", "main-first"], 1 if q else 8)
     if not q:
         replay_stage(ctx, leaf_filter, 2, 200, 150, prod=3)
         replay_stage(ctx, mt, 2, 100, 150, prod=2)
+    lap("explore producer faults")
     # (3a') the same stages when the dispatching process is PID 1 (a container's entry point): every worker's parent pid is 1
     # from the start - which must not be mistaken for "orphaned"
     real_getppid = os.getppid
@@ -1253,8 +1284,10 @@ def run(ctx):
                 ctx.violation("C03:%s:returned-after-worker-killed" % st.key,
                               "%s returned normally although the worker holding item %s was killed and the item was never processed" % (st.name, victim),
                               {"stage": st.name, "victim": victim, "trace_tail": [list(map(str, t)) for t in out.trace[-30:]]})
+    lap("pid1 + worker killed")
     # (4) real processes
     real_leaf_run(ctx, 1, 2)
+    lap("real leaf run")
     # ... and with the producer's iterable failing part-way (all four stages)
     for st in [stages[1], TransformStage(1), mt, mw]:
         real_stage_run(ctx, st, 2, k=ctx.rng.randrange(2, len(st.items()) + 1))
@@ -1263,8 +1296,10 @@ def run(ctx):
             real_stage_run(ctx, st, 3, k=ctx.rng.randrange(1, len(st.items()) + 2))
         for st in [TransformStage(1), mt, mw]:
             real_stage_run(ctx, st, 2, k=0)
+    lap("real producer-fault runs")
     # (6) histories on one Pyramid object
-    history_check(ctx)
+    history_replay(ctx, rhist, hin)
+    lap("object histories")
     if not q:
         real_leaf_run(ctx, 2, 3)
         real_leaf_run(ctx, 2, 5, accept=acc5)
